@@ -2,7 +2,7 @@
 
    (1) noninterference on attribute stores: if the datum passes [covered], then for ANY
        meaning of the callbacks respecting their frames and any two stores that agree on the
-       persistent pair (right_disp_map, step) -- e.g. a fresh machine and a machine after an
+       persistent attribute (step; right_disp_map is reassigned by run_prepare) -- e.g. a fresh machine and a machine after an
        arbitrary history -- run_prepare followed by any callback sequence that starts with
        the callbacks of the first trigger yields the same products.
    (2) the callback sequence of a run of an accepted pipeline starts with those callbacks.
@@ -268,26 +268,23 @@ Section Hist.
     | HRun => HRan (expected_trace p n (has_kind Val p)) (has_kind Val p) 1%Z
     end.
 
-  (* the machine is fresh or went through any history of checks/runs of this pipeline:
-     every run has the expected trace and reads right_disp_map = (a validation step is
-     configured), step = 1 *)
+  (* the machine is fresh or went through ANY history of successful checks/runs of ANY
+     pipelines (it is clean; what it holds in right_disp_map does not matter: check_conf and
+     run_prepare both reassign it): every run has the expected trace and reads
+     right_disp_map = (a validation step is configured in THIS pipeline), step = 1 *)
   Theorem hhistory_spec n p d : forall h m st,
-    clean m -> (m_rdm m = true -> has_kind Val p = true) -> st = 1%Z -> mc_step = 1%Z ->
-    path_ok Begin p = Some d -> accept_b step_ok (has_kind Val p) p = true ->
+    clean m -> st = 1%Z -> mc_step = 1%Z ->
+    path_ok Begin p = Some d -> accept_b step_ok p = true ->
     (n >= 1)%nat -> ((n > 1)%nat -> has_kind Msc p = true) ->
     hhistory check_tbl run_tbl step_ok mc_step n p (m, st) h = map (hexpected n p) h.
   Proof.
-    induction h as [|c r IH]; intros m st Hm Hrdm Hst Hmc Hp Hacc Hn Hmsc; [reflexivity|].
-    assert (Er : m_rdm m || has_kind Val p = has_kind Val p).
-    { destruct (m_rdm m) eqn:E; simpl; [symmetry; auto | reflexivity]. }
+    induction h as [|c r IH]; intros m st Hm Hst Hmc Hp Hacc Hn Hmsc; [reflexivity|].
     cbn [hhistory map]. destruct c; cbn [do_hcall hexpected].
     - pose proof (check_conf_spec check_tbl step_ok Hcwf m p Hm) as H.
-      assert (Ha : accept_b step_ok (m_rdm m) p = true).
-      { unfold accept_b in *. rewrite Hp in *. rewrite Er. rewrite orb_diag in Hacc. exact Hacc. }
-      rewrite Ha in H. rewrite H. f_equal.
-      apply IH; auto; [split; reflexivity | simpl; rewrite Er; auto].
-    - rewrite (run_spec run_tbl Hrwf m p n d Hm Hp Hn Hmsc). rewrite Er. subst st. f_equal.
-      apply IH; auto; [split; reflexivity].
+      rewrite Hacc in H. rewrite H. f_equal.
+      apply IH; auto; split; reflexivity.
+    - rewrite (run_spec run_tbl Hrwf m p n d Hm Hp Hn Hmsc). subst st. f_equal.
+      apply IH; auto; split; reflexivity.
   Qed.
 End Hist.
 
@@ -325,14 +322,14 @@ Section World.
      the accepted pipeline p -- each return what the first would return. *)
   Theorem whistory_spec a n p d : forall ops w,
     (forall o, In o ops -> w_mid o = a -> w_n o = n /\ w_p o = p) ->
-    clean (fst (w a)) -> (m_rdm (fst (w a)) = true -> has_kind Val p = true) -> snd (w a) = 1%Z ->
+    clean (fst (w a)) -> snd (w a) = 1%Z ->
     mc_step_of p = 1%Z ->
-    path_ok Begin p = Some d -> accept_b step_ok (has_kind Val p) p = true ->
+    path_ok Begin p = Some d -> accept_b step_ok p = true ->
     (n >= 1)%nat -> ((n > 1)%nat -> has_kind Msc p = true) ->
     whistory check_tbl run_tbl step_ok mc_step_of a w ops
     = map (hexpected n p) (map w_call (filter (fun o => Z.eqb (w_mid o) a) ops)).
   Proof.
-    intros ops w Hops Hc Hr Hs Hmc Hp Ha Hn Hm.
+    intros ops w Hops Hc Hs Hmc Hp Ha Hn Hm.
     rewrite (whistory_projection a n p ops w Hops).
     destruct (w a) as [m st] eqn:Ew. cbn [fst snd] in *.
     apply (hhistory_spec check_tbl run_tbl step_ok Hcwf Hrwf (mc_step_of p) n p d); auto.
